@@ -4,6 +4,8 @@ import json, os
 V='/verif'
 props=[json.loads(l) for l in open(V+'/properties.jsonl')]
 NA={
+ 'C13':"series file: keys and ids are concrete data moved through mmap'd segment files and an on-disk robin-hood hash index keyed by xxhash of the key; the property is about create/delete/compact/reopen histories whose steps carry no symbolic data, so a run through the symbolic executor would be an enumeration of concrete runs in a slow interpreter, not a solver verdict; the segment entry and key codecs alone do not decide any clause of the property",
+ 'C44':"password checks are bcrypt / iterated SHA-256 over the password bytes (hash loops are out of reach of the solvers for symbolic input and too slow to interpret for concrete input); the authentication middleware half is a sequence of store look-ups on concrete tokens/sessions with no symbolic kernel (the only symbolic candidate, session expiry against the clock, lives behind the kv store and encoding/json)",
  'C14':"tsi1 correctness lives in mmap'd index/log files with CRC32-checked entries, bloom filters and background compaction; CRC over symbolic bytes is out of reach of the solvers here and the file-set machinery cannot be driven without real files and goroutines",
  'C21':"the property is about Store/multi-shard read paths assembling real cursors from open shards; nothing below it that is not already C01/C06/C15 is a function of symbolic data",
  'C22':"quantifies over programs (InfluxQL queries) executed by the whole query engine against a reference evaluator: a whole-program differential run, not a bounded kernel a solver can decide",
@@ -41,7 +43,7 @@ for p in props:
           "engine":"symgo",
           "level_claimed":{"category":"model_checking","text":"bounded symbolic model checking of the real code: every input within the stated bounds is covered by solver verdicts (unsat on every path); outside the claim: "+spec.get('outside',''),"design_ref":"DESIGN.md section 6, "+pid},
           "level_note":"trusted: go/ssa construction, the symgo interpreter, the SMT solver(s), the stubs and reference models in /verif/harness/%s; assumptions: %s"%(pid,'; '.join(spec.get('assumptions',[])) or 'none beyond the bounds'),
-          "technique":"solver-based bounded symbolic execution of the Go SSA (SMT: z3), counterexamples replayed natively"
+          "technique":"solver-based bounded symbolic execution of the real Go code (go/ssa -> SMT-LIB2, z3): data (timestamps, values, ids, ranges, types, payload bytes) is symbolic and every branch and assertion over it is decided by the solver; discrete choices of a harness (operation kinds, schedule and crash positions, small sizes) are explored exhaustively as forks of that execution; counterexamples are replayed against the natively compiled code"
         })
     else:
         man['not_applicable'].append({"property_id":pid,"reason":NA.get(pid,PENDING)})
